@@ -1,6 +1,6 @@
 """Extra stages run by ./check after the worker jobs: they drive other executables (the repository's own xeh binary,
 Miri, sanitizer builds) and return results in the worker's format."""
-import os, random, subprocess, hashlib, time
+import os, re, random, subprocess, hashlib, time
 
 ROOT = os.path.dirname(os.path.abspath(__file__))
 TARGET = os.path.join(ROOT, "target")
@@ -117,6 +117,67 @@ def c10_repl_stage(seed, tier, rundir, log):
         if len(res["samples"]) < 2:
             res["samples"].append({"repl_session": subject[:8]})
     note = "repl stage: %d sessions through %s in %.1fs" % (n, xeh, time.time() - t0)
+    return (note, [({}, res, None)], {})
+
+
+# ---------------------------------------------------------------------------------------------- C08: the REPL does not crash
+REPL_LINES = ["1 2 +", "drop", ": rw 1 + ;", "5 rw", "no-such-word", "1 0 /", "[ 1 2", "]", "\"x\" print", "3 0 do I loop", "#( 6 7 * #)", "12x",
+              "5 var rv", "rv 1 + ! rv", "3 0 do 1 0 / loop", "I", "\"unterminated", "", "   ", ".s", "depth", "|FF 0| u8", "8 bits", "nil if 1 then",
+              "170141183460469231731687303715884105727 1 +", "\"caf\u00e9\" print", "[ 1 2 3 ] 9 nth"]
+REPL_COMMANDS = ["/snapshot", "/rollback", "/trial", "/repl", "/next", "/rnext", "/nosuchcommand", "/rollback", "/snapshot"]
+
+
+def c08_repl_stage(seed, tier, rundir, log):
+    """random sessions typed into the real xeh binary, ordinary lines mixed with the REPL's own commands (/snapshot /rollback
+    /trial /repl /next /rnext): the process must end normally (exit status 0, no panic message), whatever was typed"""
+    xeh = os.environ.get("XV_REPO_BIN") or os.path.join(TARGET, "repo-bin", "release", "xeh")
+    res = _res()
+    if not os.path.exists(xeh):
+        return ("C08 repl stage: xeh binary missing", [({}, None, "repl stage: %s not built" % xeh)], {})
+    n = 240 if tier == "quick" else 6000
+    cwd = os.path.join(TARGET, "scratch", "repl8")
+    os.makedirs(cwd, exist_ok=True)
+    rng = random.Random(seed * 6151 + 5)
+    t0 = time.time()
+    sessions = []
+    for i in range(n):
+        lines = []
+        for _ in range(2 + rng.randrange(10)):
+            lines.append(rng.choice(REPL_COMMANDS) if rng.random() < 0.4 else rng.choice(REPL_LINES))
+        sessions.append(lines)
+
+    def run(lines):
+        try:
+            return _session(xeh, lines, cwd)
+        except subprocess.TimeoutExpired:
+            return None
+    from concurrent.futures import ThreadPoolExecutor
+    with ThreadPoolExecutor(max_workers=16) as ex:
+        outs = list(ex.map(run, sessions))
+    for i, (lines, r) in enumerate(zip(sessions, outs)):
+        res["cases"] += 1
+        case = "\n".join(lines)
+        if r is None:
+            _count(res, "repl_sessions_timed_out")
+            res["skipped"] += 1
+            continue
+        rc, out, err = r
+        _count(res, "repl_sessions")
+        for l in lines:
+            if l.startswith("/"):
+                _see(res, "repl_commands_typed", l)
+        if rc != 0 or "panicked at" in err:
+            first = next((l for l in err.splitlines() if "panicked at" in l), "exit status %s" % rc)
+            loc = re.sub(r"^.*panicked at ", "", first)
+            loc = re.sub(r"^/.*/(src/[a-z_0-9]+\.rs)", r"\1", loc)
+            loc = re.sub(r":\d+:\d+:?$", "", loc)
+            res["violations"].append({"class": "repl:crash", "sig": "C08:repl:crash:%s" % loc, "index": i, "case": case,
+                                      "detail": "the xeh process ended with status %s\n%s" % (rc, err[-700:])})
+            continue
+        res["shapes"].append(hashlib.sha1(case.encode()).hexdigest()[:12])
+        if len(res["samples"]) < 2:
+            res["samples"].append({"repl_session": lines[:8]})
+    note = "C08 repl stage: %d sessions through %s in %.1fs" % (n, xeh, time.time() - t0)
     return (note, [({}, res, None)], {})
 
 
